@@ -143,11 +143,11 @@ static void run_case_local(const std::vector<Job> &jobs, const std::set<std::str
     std::atomic<int> ready(0); std::atomic<bool> go(false);
     std::vector<std::thread> th;
     for (int i = 0; i < njobs; ++i) th.emplace_back([&, i] {
-        ready++; while (!go.load()) {}
+        ready++; while (!go.load()) std::this_thread::yield();
         volatile unsigned spin = 0; for (unsigned k = 0; k < jobs[i].skew * 200u; ++k) spin += k;
         o.conc[i] = run_job(jobs[i].type, jobs[i].kind, jobs[i].bytes.data(), jobs[i].bytes.size(), known);
     });
-    while (ready.load() < njobs) {}
+    while (ready.load() < njobs) std::this_thread::yield();   // (busy spinning starved the other shards' threads on a loaded machine)
     go.store(true);
     for (auto &t : th) t.join();
     for (int i = njobs - 1; i >= 0; --i) o.again[i] = run_job(jobs[i].type, jobs[i].kind, jobs[i].bytes.data(), jobs[i].bytes.size(), known);
